@@ -231,7 +231,15 @@ class CallMixin:
     def assume_immutables(self, s2: State, st: State, newheap):
         """ground instances of the immutability clauses (construction-time fields, classes, tuples) for the objects
         in scope, between the heap of `st` and `newheap` (same facts as the quantified rely clauses)"""
-        for n, v in st.env.items():
+        scope = list(st.env.items())
+        if "outer_env" in st.ghost and self.spec is not None:
+            for n, ty in getattr(self.spec, "cell_types", {}).items():
+                if n in self.freevars:
+                    a_ = st.ghost["outer_env"]
+                    for _ in range(getattr(self, "free_depth", {}).get(n, 1) - 1):
+                        a_ = Val.a(z3.Select(st.heap["fld:cell:__parent__"], a_))
+                    scope.append(("cell:" + n, SV(z3.Select(st.heap["fld:cell:" + n], a_), ty)))
+        for n, v in scope:
             k = strip_opt(v.ty)
             if k.kind in ("any", "exc", "lib"):
                 a = Val.a(v.t)
@@ -241,6 +249,10 @@ class CallMixin:
                 continue
             a = Val.a(v.t)
             guard = z3.And(Val.is_ref(v.t), 0 <= a, a < st.heap["alloc"])
+            for fn_ in getattr(self.reg, "ground_rely", ()):
+                g_ = fn_(self, st.heap, newheap, a, k.name)
+                if g_ is not None:
+                    s2.assume(z3.Implies(guard, g_))
             for item in self.reg.immutable_fields:
                 if isinstance(item, tuple) and item[0] in self.world.mro(k.name):
                     c = "fld:" + item[1]
@@ -305,6 +317,18 @@ class CallMixin:
                 cs = [c for c, srt in self.comps.items() if c != "alloc" and z3.is_array(newheap[c]) and newheap[c].sort().domain() == I]
             for c in cs:
                 s2.assume(z3.Select(newheap[c], a) == z3.Select(st.heap[c], a))
+        # cells of the enclosing activations read by this closure: written only by the enclosing function itself (which
+        # has finished with them when the closure runs) unless some closure declares them nonlocal
+        if "outer_env" in st.ghost:
+            for n in self.freevars:
+                if n in self.nonlocal_written:
+                    continue
+                a_old = st.ghost["outer_env"]
+                for _ in range(getattr(self, "free_depth", {}).get(n, 1) - 1):
+                    a_old = Val.a(z3.Select(st.heap["fld:cell:__parent__"], a_old))
+                c = "fld:cell:" + n
+                s2.assume(z3.Select(newheap[c], a_old) == z3.Select(st.heap[c], a_old))
+            s2.assume(z3.Select(newheap["fld:cell:__parent__"], st.ghost["outer_env"]) == z3.Select(st.heap["fld:cell:__parent__"], st.ghost["outer_env"]))
         # this activation's cells: written only by this activation and its nonlocal-writing closures
         if st.envref is not None:
             for n in self.cellvars:
@@ -678,6 +702,7 @@ class CallMixin:
             else:
                 ok.assume(f)
         if self.feasible(ok):
+            ok.trace.append(("spec_ret", qual, dict(args)))
             out.append(Res(ok, res))
         if spec.may_raise:
             bad = s2.copy()
